@@ -1028,6 +1028,94 @@ async fn scenario_c05(seed: u64, id: u64, base: &Path, r: &mut PropReport) {
         plugin.kill().await;
         return;
     }
+    // ---- abandon phase: two more towers, three more revocations that end up shared between them in different
+    // records (invalid at both / pending at the one about to be abandoned and invalid at the other / pending at
+    // both), then one of the two is abandoned: the records of the tower that stays must not move
+    if plugin.alive() {
+        let mut arng = Rng::stream(seed, 0xC05A, id);
+        let ta = FakeTower::start(&mut arng).await;
+        let tb = FakeTower::start(&mut arng).await;
+        let mut reg_ok = true;
+        for t in [&ta, &tb] {
+            if plugin.call("registertower", json!([format!("{}@127.0.0.1:{}", hex::encode(t.id.to_vec()), t.port)]), 20).await.is_err() {
+                reg_ok = false;
+            }
+        }
+        if reg_ok {
+            let z = revocation(&mut arng, 901);
+            let x = revocation(&mut arng, 902);
+            let y = revocation(&mut arng, 903);
+            let mut shared: Vec<Revocation> = Vec::new();
+            // Z: rejected by both
+            ta.state.lock().unwrap().add.push_back(Beh::ApiError(4));
+            tb.state.lock().unwrap().add.push_back(Beh::ApiError(35));
+            let mut all_answered = plugin.revoke(&z, HOOK_TIMEOUT).await.is_ok();
+            shared.push(z);
+            // X: the tower to be abandoned is down (pending there), the other one rejects
+            ta.set_up(false);
+            tokio::time::sleep(Duration::from_millis(60)).await;
+            tb.state.lock().unwrap().add.push_back(Beh::ApiError(4));
+            all_answered &= plugin.revoke(&x, HOOK_TIMEOUT).await.is_ok();
+            shared.push(x);
+            // Y: both down (pending at both)
+            tb.set_up(false);
+            tokio::time::sleep(Duration::from_millis(60)).await;
+            all_answered &= plugin.revoke(&y, HOOK_TIMEOUT).await.is_ok();
+            shared.push(y);
+            if all_answered {
+                let ctx = format!("scenario {id}, abandon phase (towers A and B registered late; Z invalid at both, X pending at A and invalid at B, Y pending at both)");
+                let before = check_records(&dir, &[ta.clone(), tb.clone()], &shared, &format!("{ctx} before abandoning A"));
+                let abandoned = plugin.call("abandontower", json!([hex::encode(ta.id.to_vec())]), 20).await.is_ok();
+                if before.is_none() && abandoned {
+                    r.count("abandon_phases_checked", 1);
+                    let mut bad = check_records(&dir, &[tb.clone()], &shared, &format!("{ctx} after abandontower A"));
+                    if bad.is_none() {
+                        // and the same after a restart
+                        plugin.kill().await;
+                        match Plugin::start(&dir, &PluginOpts { max_retry_time: 2, auto_retry_delay: 3, max_interval: 1, abort_at: None }).await {
+                            Ok(p) => {
+                                plugin = p;
+                                bad = check_records(&dir, &[tb.clone()], &shared, &format!("{ctx} after abandontower A and a client restart"));
+                                if bad.is_none() {
+                                    // what the client reports for B must agree with its database
+                                    if let Ok(info) = plugin.call("gettowerinfo", json!([hex::encode(tb.id.to_vec())]), 10).await {
+                                        let n_inv = info.get("invalid_appointments").and_then(|a| a.as_object()).map_or(0, |a| a.len());
+                                        let n_pend = info.get("pending_appointments").and_then(|a| a.as_object()).map_or(0, |a| a.len());
+                                        let rows = read_rows(&dir);
+                                        let tbid = hex::encode(tb.id.to_vec());
+                                        let db_inv = rows.as_ref().map_or(0, |x| x.invalid.iter().filter(|k| k.1 == tbid).count());
+                                        let db_pend = rows.as_ref().map_or(0, |x| x.pending.iter().filter(|k| k.1 == tbid).count());
+                                        if n_inv != db_inv || (db_pend > 0 && n_pend == 0) {
+                                            bad = Some(("C05:reported-records-differ-from-database".to_string(), format!("{ctx}: after the restart gettowerinfo reports {n_inv} invalid / {n_pend} pending appointments for B, the database holds {db_inv} / {db_pend}")));
+                                        }
+                                    }
+                                }
+                            }
+                            Err(e) => {
+                                r.violation("C05:restart-failed", format!("{ctx}: the client does not restart after abandontower: {e}"), replay.clone());
+                                return;
+                            }
+                        }
+                    }
+                    if let Some((sig, detail)) = bad {
+                        r.violation(sig.replace("C05:", "C05:after-abandon:"), detail, replay.clone());
+                        plugin.kill().await;
+                        return;
+                    }
+                    // the records of the towers of the first part of the scenario must not have moved either
+                    if let Some((sig, detail)) = check_records(&dir, &towers, &answered, &format!("{ctx}: records of the other towers after abandontower A")) {
+                        r.violation(sig.replace("C05:", "C05:after-abandon:"), detail, replay.clone());
+                        plugin.kill().await;
+                        return;
+                    }
+                } else if let Some((sig, detail)) = before {
+                    r.violation(sig, detail, replay.clone());
+                    plugin.kill().await;
+                    return;
+                }
+            }
+        }
+    }
     if let Some(pt) = plugin.panic_text() {
         r.violation("C05:panic", format!("scenario {id}: the client panicked: {pt}"), replay.clone());
     }
@@ -1378,6 +1466,116 @@ async fn tower_status(plugin: &mut Plugin, tid: &str) -> Option<(String, usize)>
     Some((t.get("status")?.as_str()?.to_string(), t.get("pending_appointments")?.as_array()?.len()))
 }
 
+/// The retry of a tower in `subscription error` failed for good (the renewal was answered with a receipt that does not
+/// extend the subscription): the data must be retained under `subscription error`; once the tower renews properly a
+/// manual retry (documented for that state) or the next revocation must get everything delivered.
+#[allow(clippy::too_many_arguments)]
+async fn scenario_c13_failed_retrier(id: u64, ctx: &str, mut plugin: Plugin, tower: Arc<FakeTower>, tid: String, mut revs: Vec<Revocation>, mut next_n: u32, mut rng: Rng, dir: PathBuf, replay: Value, r: &mut PropReport, bound_s: u64) {
+    // settle: subscription error, everything pending (generous wall-clock wait, inconclusive if the state is never seen)
+    let t_wait = Instant::now();
+    let mut seen = tower_status(&mut plugin, &tid).await;
+    let renewals = |t: &FakeTower| t.state.lock().unwrap().log.iter().filter(|l| l.endpoint == "register").count();
+    // (the first `register` in the log is the registration itself)
+    while (seen.as_ref().map_or(true, |s| s.0 != "subscription_error") || renewals(&tower) < 2) && t_wait.elapsed() < Duration::from_secs(20) {
+        tokio::time::sleep(Duration::from_millis(400)).await;
+        seen = tower_status(&mut plugin, &tid).await;
+    }
+    match &seen {
+        Some((st, pend)) if st == "subscription_error" && renewals(&tower) >= 2 => {
+            if *pend != revs.len() {
+                r.violation("C13:status-while-failing", format!("{ctx}: after the renewal was refused for good the tower is shown as {st} with {pend} pending appointments ({} were notified)", revs.len()), replay.clone());
+                plugin.kill().await;
+                return;
+            }
+            r.count("give_up_states_checked", 1);
+        }
+        other => {
+            r.inconclusive += 1;
+            r.note(format!("{ctx}: the state 'subscription error after a refused renewal' was not reached within 20 s (seen {other:?}, {} register requests)", renewals(&tower)));
+            plugin.kill().await;
+            return;
+        }
+    }
+    // the manager drops a failed retrier at its next round (1 s polling): give it three
+    tokio::time::sleep(Duration::from_millis(3000)).await;
+    {
+        let mut st = tower.state.lock().unwrap();
+        st.default_register = Beh::Accept;
+        st.default_add = Beh::Accept;
+        st.add.clear();
+        st.register.clear();
+    }
+    let t_rec = Instant::now();
+    let by_revocation = rng.chance(1, 2);
+    if by_revocation {
+        // the next revocation finds no retrier for the tower: it must start one
+        let rev = revocation(&mut rng, next_n);
+        next_n += 1;
+        if plugin.revoke(&rev, HOOK_TIMEOUT).await.is_err() {
+            r.violation("C13:hook-unanswered", format!("{ctx}: a notification arriving after the retry had failed for good was not answered; stderr {:?}", plugin.panic_text()), replay.clone());
+            plugin.kill().await;
+            return;
+        }
+        revs.push(rev);
+        r.count("revocations_after_failed_retrier", 1);
+    } else {
+        let mut res = plugin.call("retrytower", json!([tid]), 10).await;
+        if let Err(CallErr::Rpc(e)) = &res {
+            if e.to_string().contains("already being retried") {
+                // the failed retrier had not been cleaned up yet: documented answer, try once more a little later
+                tokio::time::sleep(Duration::from_millis(2500)).await;
+                res = plugin.call("retrytower", json!([tid]), 10).await;
+            }
+        }
+        r.count("manual_retries", 1);
+        r.count("manual_retries_after_failed_retrier", 1);
+        if let Err(e) = &res {
+            let st = tower_status(&mut plugin, &tid).await;
+            r.violation("C13:manual-retry-refused", format!("{ctx}: retrytower was refused ({e:?}) although the tower was shown as {st:?} and no retry was running"), replay.clone());
+            plugin.kill().await;
+            return;
+        }
+    }
+    let bound = Duration::from_secs(bound_s);
+    let mut ok = false;
+    let mut last = None;
+    while t_rec.elapsed() < bound {
+        tokio::time::sleep(Duration::from_millis(400)).await;
+        last = tower_status(&mut plugin, &tid).await;
+        if last.as_ref().map(|s| (s.0.as_str(), s.1)) == Some(("reachable", 0)) {
+            ok = true;
+            break;
+        }
+    }
+    let how = if by_revocation { "a new revocation arrived" } else { "retrytower was accepted" };
+    if !ok {
+        r.violation(
+            "C13:not-delivered:after-failed-retrier",
+            format!("{ctx}: the tower renews properly again and {how}; {}s later the tower is shown as {last:?} ({} requests reached it since); stderr {:?}", bound.as_secs(), tower.state.lock().unwrap().log.iter().filter(|l| l.t > t_rec).count(), plugin.panic_text()),
+            replay.clone(),
+        );
+    } else if let Some((sig, detail)) = check_records(&dir, &[tower.clone()], &revs, ctx) {
+        r.violation(sig.replace("C05:", "C13:after-recovery:"), detail, replay.clone());
+    } else {
+        r.count("recoveries_delivered", 1);
+        r.max("max_delivery_ms_after_recovery", t_rec.elapsed().as_millis() as u64);
+    }
+    if let Some(o) = trace_overlaps(&plugin.trace) {
+        r.violation("C13:overlapping-retry-loops", format!("{ctx}: {o}"), replay.clone());
+    }
+    if let Some((loc, n)) = { let st = tower.state.lock().unwrap(); flood(&st.log) } {
+        r.violation("C13:flood", format!("{ctx}: {n} requests for locator {loc} within one second"), replay.clone());
+    }
+    if let Some(pt) = plugin.panic_text() {
+        r.violation("C13:panic", format!("{ctx}: {pt}"), replay.clone());
+    }
+    r.nontrivial(fnv(format!("{id}:failed-retrier:{by_revocation}").as_bytes()));
+    r.count("kind[subscription-error-renewal-refused-for-good]", 1);
+    r.sample(|| json!({"scenario": id, "kind": "subscription-error-renewal-refused-for-good", "recovery_by": how, "revocations": revs.len(), "tower_requests": tower.state.lock().unwrap().log.len()}));
+    plugin.kill().await;
+    let _ = std::fs::remove_dir_all(&dir);
+}
+
 async fn scenario_c13(seed: u64, id: u64, base: &Path, r: &mut PropReport) {
     let mut rng = Rng::stream(seed, 0xC13, id);
     let dir = base.join(format!("c13-{id}"));
@@ -1403,8 +1601,11 @@ async fn scenario_c13(seed: u64, id: u64, base: &Path, r: &mut PropReport) {
         return;
     }
     // error kind while the tower "keeps failing"
-    let kind = rng.below(6);
-    let kind_name = ["connection-refused", "subscription-error-then-renewable", "garbage-replies", "connection-refused+restart", "rejection", "connection-refused-then-garbage"][kind as usize];
+    let mut kind = rng.below(6);
+    if id % 6 == 5 {
+        kind = 6;
+    }
+    let kind_name = ["connection-refused", "subscription-error-then-renewable", "garbage-replies", "connection-refused+restart", "rejection", "connection-refused-then-garbage", "subscription-error-renewal-refused-for-good"][kind as usize];
     // when does the tower recover (seconds after the first failure)? spans: first interval, between retries,
     // around give-up, during idle, after the auto-retry fired
     let recover_after_ms = *rng.pick(&[300u64, 900, 1600, 2400, 3200, 4500, 6000, 7500]);
@@ -1413,6 +1614,13 @@ async fn scenario_c13(seed: u64, id: u64, base: &Path, r: &mut PropReport) {
     match kind {
         0 | 3 | 5 => tower.set_up(false),
         1 => tower.state.lock().unwrap().default_add = Beh::SubscriptionError,
+        6 => {
+            // the subscription has run out and the tower answers the renewal with a correctly signed receipt that
+            // does not extend it: a permanent failure of the retry (the retrier ends up `failed`)
+            let mut st = tower.state.lock().unwrap();
+            st.default_add = Beh::SubscriptionError;
+            st.default_register = Beh::Mutated("expiry".into(), "not-extending".into());
+        }
         2 => tower.state.lock().unwrap().default_add = Beh::NonJson,
         _ => tower.state.lock().unwrap().default_add = Beh::ApiError(4),
     }
@@ -1472,6 +1680,9 @@ async fn scenario_c13(seed: u64, id: u64, base: &Path, r: &mut PropReport) {
             };
         }
     }
+    if kind == 6 {
+        return scenario_c13_failed_retrier(id, &ctx, plugin, tower, tid, revs, next_n, rng, dir, replay, r, max_retry + auto_delay + 2 + 8).await;
+    }
     // while it keeps failing: no flood, data retained
     let fl = {
         let st = tower.state.lock().unwrap();
@@ -1485,7 +1696,7 @@ async fn scenario_c13(seed: u64, id: u64, base: &Path, r: &mut PropReport) {
     let gave_up = t0.elapsed().as_secs() > max_retry + 2;
     if gave_up && !restarted {
         // settled: the tower must be shown unreachable (or subscription error) with its data retained
-        let want = if kind == 1 { ["subscription error", "unreachable"] } else { ["unreachable", "unreachable"] };
+        let want = if kind == 1 { ["subscription_error", "unreachable"] } else { ["unreachable", "unreachable"] };
         // the give-up instant is the product's wall-clock business (back-off in seconds): on a loaded machine it may
         // come late, so the status is given a generous extra 12 s to settle before it is judged
         let mut seen = tower_status(&mut plugin, &tid).await;
